@@ -108,6 +108,9 @@ func genC07(t *rapid.T) C07Case {
 		c.Progs = append(c.Progs, C07Prog{U: *u, Tree: tree, Mask: rapid.IntRange(0, 15).Draw(t, "mask"), Events: pickW(t, "events", 6, 2, 2, 1), Src: m.Render(tree)})
 	}
 	c.Seq = genC07Calls(t, np, 10, 60)
+	if rapid.IntRange(0, 3).Draw(t, "coldstart") == 0 {
+		c.Seq = nil // no sequential warm-up: the very first calls on the shared programs are the concurrent ones
+	}
 	ng := rapid.IntRange(2, depthMax(8, 16)).Draw(t, "goroutines")
 	lo, hi := 10, depthMax(50, 200)
 	c.Consumer = rapid.IntRange(0, 2).Draw(t, "consumer")
@@ -176,6 +179,37 @@ func c07Binding(u *Universe, k int) (vars map[string]interface{}, fail map[strin
 type c07Result struct {
 	o    Outcome
 	text string
+}
+
+// errTexts remembers every error a call returned together with its text at that moment: an
+// error is part of what the call returned and says the same thing when it is read later.
+type errTexts struct {
+	mu   sync.Mutex
+	errs []error
+	txts []string
+}
+
+func (e *errTexts) note(err error) {
+	if err == nil {
+		return
+	}
+	txt := err.Error()
+	e.mu.Lock()
+	if len(e.errs) < 4096 {
+		e.errs, e.txts = append(e.errs, err), append(e.txts, txt)
+	}
+	e.mu.Unlock()
+}
+
+func (e *errTexts) changed() (string, string, bool) {
+	e.mu.Lock()
+	defer e.mu.Unlock()
+	for i, err := range e.errs {
+		if now := err.Error(); now != e.txts[i] {
+			return e.txts[i], now, true
+		}
+	}
+	return "", "", false
 }
 
 func (a c07Result) same(b c07Result) bool {
@@ -500,9 +534,11 @@ func checkC07(c C07Case, r *Rec) *Violation {
 
 	// sequential history on the shared programs
 	failures := 0
+	kept := &errTexts{}
 	for k, call := range c.Seq {
 		p := progs[call.P]
 		got := c07Do(p.e, p.cc, p.u, call, p.kept)
+		kept.note(got.o.Err)
 		if got.o.Err != nil {
 			failures++
 		}
@@ -531,6 +567,7 @@ func checkC07(c C07Case, r *Rec) *Violation {
 			for k, call := range calls {
 				p := progs[call.P]
 				got := c07Do(p.e, p.cc, p.u, call, p.kept)
+				kept.note(got.o.Err)
 				if k == 0 {
 					atomic.AddInt32(&firstCalls, 1)
 				}
@@ -556,6 +593,12 @@ func checkC07(c C07Case, r *Rec) *Violation {
 	}
 	if v := checkImmutable("by the concurrent calls"); v != nil {
 		return v
+	}
+	if was, now, changed := kept.changed(); changed {
+		return Violf("C07: an error returned by an earlier call reads differently after later calls: it said %q when it was returned, now %q\n%s", was, now, describe())
+	}
+	if len(c.Seq) == 0 {
+		r.Class("cold-start:first-calls-are-concurrent")
 	}
 	// the caller's kept bindings maps are what they were
 	for i, p := range progs {
@@ -606,7 +649,7 @@ func checkC07(c C07Case, r *Rec) *Violation {
 
 var propC07 = Prop[C07Case]{
 	ID:       "C07",
-	Rule:     "histories over 1..3 shared compiled programs (typed random tree x optimization subset x {no events, ReportEvent, Debug}), 6 bindings each (three of them with an additional failing fetch, so successes and failures mix): a sequential part of 10..60 calls (Eval, TryEval, Dump, DumpTable, EvalBool) and a concurrent part of 2..8 (16 thorough) goroutines x 10..50 (200) calls started behind one barrier, GOMAXPROCS 1 / 2 / 4 / the machine's (drawn), each call with its own context - one in five carrying an already cancelled or expired context.Context - (the harness's instrumented fetcher - which yields the processor on every 1st / 2nd / 3rd fetch or never (drawn per call), so that with few processors whole evaluations of other goroutines run between two fetches of one evaluation -, the library's NewCtxFromVars over the values, an empty NewCtxFromVars context filled with Ctx.Set, or NewCtxFromVars over one raw-typed bindings map per binding that the caller keeps and shares between all goroutines); event consumer prompt / buffered / slow. Oracles: every call returns what the same call returns on a freshly compiled unshared program (itself cross-checked against R when unoptimized); the flat program read through the read-only hook (flags, child counts, jump indexes, stack slots, keys, values, operator identities, parent table, stack bound) is identical before and after; the test binary runs under the Go race detector (halt on first report; the case is written to disk before it runs). Non-trivial = at least two goroutines had completed a call when the first goroutine finished (measured) and the sequential history mixes failing and succeeding calls; distinct by the whole history",
+	Rule:     "histories over 1..3 shared compiled programs (typed random tree x optimization subset x {no events, ReportEvent, Debug}), 6 bindings each (three of them with an additional failing fetch, so successes and failures mix): a sequential part of 10..60 calls (Eval, TryEval, Dump, DumpTable, EvalBool) and a concurrent part of 2..8 (16 thorough) goroutines x 10..50 (200) calls started behind one barrier, GOMAXPROCS 1 / 2 / 4 / the machine's (drawn), each call with its own context - one in five carrying an already cancelled or expired context.Context - (the harness's instrumented fetcher - which yields the processor on every 1st / 2nd / 3rd fetch or never (drawn per call), so that with few processors whole evaluations of other goroutines run between two fetches of one evaluation -, the library's NewCtxFromVars over the values, an empty NewCtxFromVars context filled with Ctx.Set, or NewCtxFromVars over one raw-typed bindings map per binding that the caller keeps and shares between all goroutines); event consumer prompt / buffered / slow. One history in four has no sequential part (the first calls a program ever sees are the concurrent ones). Oracles: every call returns what the same call returns on a freshly compiled unshared program; an error once returned keeps its text (itself cross-checked against R when unoptimized); the flat program read through the read-only hook (flags, child counts, jump indexes, stack slots, keys, values, operator identities, parent table, stack bound) is identical before and after; the test binary runs under the Go race detector (halt on first report; the case is written to disk before it runs). Non-trivial = at least two goroutines had completed a call when the first goroutine finished (measured) and the sequential history mixes failing and succeeding calls; distinct by the whole history",
 	Gen:      genC07,
 	Check:    checkC07,
 	PreWrite: true,
